@@ -263,7 +263,54 @@ pub fn run(a: &Args, rep: &mut Report, has_alloc: bool) {
             other => rep.inconclusive.push(format!("harness: family {} is not a single well-formed item: {:?}", name, other.map(|x| x.1))),
         }
     }
+    // 4. containers with more than 2^32 items (thorough tier, one shard): the input is an anonymous
+    // mapping of zero bytes behind a small header, every item is the one-byte unsigned integer 0;
+    // the counters / stack entries of skip must not be narrower than the declared counts
+    if a.thorough() && has_alloc && a.shard == 5 % a.nshards {
+        huge_counts(rep);
+    }
     rep.note("text strings in generated items are valid UTF-8 (skip validates text; 'well-formed item' is read as well-formed and valid)");
+}
+
+fn huge_counts(rep: &mut Report) {
+    // (name, header, number of one-byte items that follow the header)
+    let n: u64 = (1 << 32) + 2;
+    let mut cases: Vec<(&str, Vec<u8>, u64)> = Vec::new();
+    let mut h = vec![0x9b];
+    h.extend_from_slice(&n.to_be_bytes());
+    cases.push(("array of 2^32+2 items, counting mode", h.clone(), n));
+    // an indefinite array first, so that skip is on its explicit stack when it meets the big one
+    let mut h2 = vec![0x82, 0x9f, 0xff, 0x9b];
+    h2.extend_from_slice(&n.to_be_bytes());
+    cases.push(("[[_ ], array of 2^32+2 items], stack mode", h2, n));
+    let pairs: u64 = (1 << 31) + 1;
+    let mut h3 = vec![0x82, 0x9f, 0xff, 0xbb];
+    h3.extend_from_slice(&pairs.to_be_bytes());
+    cases.push(("[[_ ], map of 2^31+1 pairs], stack mode", h3, 2 * pairs));
+    for (name, header, items) in cases {
+        let total = header.len() as u64 + items;
+        let region = match mon::ZeroRegion::with_prefix(total as usize + 3, &header) {
+            Some(r) => r,
+            None => {
+                rep.note("huge-count skip not exercised: cannot map the region");
+                return;
+            }
+        };
+        mon::set_case(name.as_bytes());
+        rep.eval();
+        let r = mon::guarded(|| {
+            let mut d = Decoder::new(region.as_slice());
+            let r = d.skip();
+            (r.map_err(|e| e.to_string()), d.position() as u64)
+        });
+        mon::tick();
+        match r {
+            Err(p) => fail(rep, "skip|huge-count-panic", format!("{}: {}", name, p.message), &header),
+            Ok((Ok(()), pos)) if pos == total => rep.count("containers with more than 2^32 items skipped exactly"),
+            Ok((res, pos)) => fail(rep, "skip|huge-count", format!("{}: skip returned {:?} at position {}, the item ends at {}", name, res, pos, total), &header),
+        }
+        rep.enumerated(1);
+    }
 }
 
 pub fn replay(a: &Args, rep: &mut Report, has_alloc: bool) {
